@@ -1,7 +1,10 @@
 package rules
 
 import (
+	"go/token"
+	"go/types"
 	"golang.org/x/tools/go/ssa"
+	"strings"
 
 	"pwv/internal/core"
 )
@@ -13,6 +16,7 @@ func runC20(c *Ctx) {
 	R.Technique = "bounds obligations (E-BND/E-LIN) with the regexp sub-match contract, growth-loop bound proof, operand provenance towards ParameterDescription"
 	R.Explanation = "That the returned length equals 'highest $n / number of ?' is a value-level statement about regular-expression matching and is NOT decided by static analysis. Decided: (R1) totality - every index and slice in ParseParameters is proved in range for every query string (the sub-match index from the number of capture groups of the constant pattern, read with regexp/syntax at analysis time); " +
 		"(R2) boundedness - the only loop that grows the result is bounded by a position proved <= 65535 on every path (saturated / out-of-range numbers included), the other loop ranges over the matches, and the initial allocation is sized by the number of matches; (R3) the result holds only the zero OID (unspecified type); (R4) the list a statement declares reaches ParameterDescription unchanged: WithParameters stores it, the statement cache copies it, Describe announces len() of that very list and its elements."
+	R.Explanation += " (R3) also: the single-placeholder append is dominated by the emptiness test of the position group (a $n marker is never counted as '?', whatever n). (R4) also: the declared parameter list is stored only by WithParameters / NewStatement and the cache's copy."
 	R.Trusted = []string{"go/types + go/ssa", "regexp: every match of FindAllStringSubmatch has 1 + NumSubexp entries", "strconv.Atoi returns a value (saturated on range errors); its error is irrelevant once the value is capped"}
 
 	pp := c.mustFunc("C20.R1", "wire", "ParseParameters")
@@ -41,6 +45,14 @@ func runC20(c *Ctx) {
 		}
 		n++
 		ok := false
+		if _, isMk := ci.Common().Args[1].(*ssa.MakeSlice); isMk {
+			ok = true // a freshly made slice is all zero OIDs
+		}
+		if sl, isSl := ci.Common().Args[1].(*ssa.Slice); isSl {
+			if _, isMk := sl.X.(*ssa.MakeSlice); isMk {
+				ok = true
+			}
+		}
 		if sl, isSl := ci.Common().Args[1].(*ssa.Slice); isSl {
 			if a, isA := sl.X.(*ssa.Alloc); isA {
 				ok = true
@@ -60,6 +72,74 @@ func runC20(c *Ctx) {
 		R.Check(ok, "C20.R3", "ParseParameters:appends-zero-oid", c.at(ci), "every placeholder is of unspecified type (OID 0)", "append(parameters, 0)", "a value other than the constant 0 is appended")
 	}
 	R.Floor("C20.R3", "append sites in ParseParameters", n, 2)
+	// a marker counts as un-positional ('?', one more placeholder) only when its position group is empty: the
+	// single-placeholder append outside the positional fill is dominated by the capture == "" edge. (Steering on the
+	// conversion error instead also diverts positions that overflow int.)
+	var emptyEdges []edge
+	for _, b := range pp.Blocks {
+		for _, in := range b.Instrs {
+			cmp, ok := in.(*ssa.BinOp)
+			if !ok || (cmp.Op != token.EQL && cmp.Op != token.NEQ) {
+				continue
+			}
+			isEmpty := false
+			var tested ssa.Value
+			for _, pair := range [][2]ssa.Value{{cmp.X, cmp.Y}, {cmp.Y, cmp.X}} {
+				if sv, ok := core.ConstString(pair[1]); ok && sv == "" {
+					isEmpty, tested = true, pair[0]
+				}
+				if k, ok := core.ConstInt(pair[1]); ok && k == 0 {
+					if x, ok := core.IsLenOf(pair[0]); ok {
+						if bt, ok := x.Type().Underlying().(*types.Basic); ok && bt.Info()&types.IsString != 0 {
+							isEmpty, tested = true, x
+						}
+					}
+				}
+			}
+			if !isEmpty || tested == nil {
+				continue
+			}
+			// the tested string is an element of the match (the capture group)
+			if _, p := pathOf(tested); !strings.Contains(p, "[]") {
+				continue
+			}
+			idx := 0
+			if cmp.Op == token.NEQ {
+				idx = 1
+			}
+			for _, u := range core.Referrers(cmp) {
+				if iff, ok := u.(*ssa.If); ok {
+					emptyEdges = append(emptyEdges, edge{iff.Block(), idx})
+				}
+			}
+		}
+	}
+	loopsPP := core.Loops(pp)
+	nSingle := 0
+	for _, ci := range core.Calls(pp) {
+		if core.BuiltinName(ci.Common()) != "append" {
+			continue
+		}
+		sl, isSl := ci.Common().Args[1].(*ssa.Slice)
+		if !isSl {
+			continue
+		}
+		if _, isA := sl.X.(*ssa.Alloc); !isA {
+			continue
+		}
+		depth := 0
+		for _, l := range loopsPP {
+			if l.Body[ci.Block()] {
+				depth++
+			}
+		}
+		if depth >= 2 {
+			continue // the positional fill loop
+		}
+		nSingle++
+		R.Check(anyDominates(emptyEdges, ci.Block()), "C20.R3", "ParseParameters:unpositional-only-when-capture-empty", c.at(ci), "a marker adds one placeholder only when it is a '?' (empty position group); every $n marker, however large n, extends the list to min(n, 65535)", "the single append is dominated by the capture == \"\" edge", "the one-placeholder append is not guarded by an emptiness test of the position group: a $n marker can be counted as a '?' (e.g. when its number overflows the integer conversion)")
+	}
+	R.Floor("C20.R3", "un-positional append sites", nSingle, 1)
 	// the function returns the grown slice
 	for _, r := range returns(pp) {
 		var ls []ssa.Value
@@ -80,6 +160,48 @@ func runC20(c *Ctx) {
 	}
 
 	// ---------- R4: towards ParameterDescription
+	// the declared list is written only where a statement is built: the WithParameters option and the cache's copy
+	nPW := 0
+	for _, fn := range c.P.ScopeFuncs() {
+		for _, b := range fn.Blocks {
+			for _, in := range b.Instrs {
+				st, ok := in.(*ssa.Store)
+				if !ok {
+					continue
+				}
+				fr, ok := core.FieldOfAddr(st.Addr)
+				if !ok || fr.Name != "parameters" || !(fr.Is(pkWire, "PreparedStatement", "parameters") || fr.Is(pkWire, "Statement", "parameters")) {
+					continue
+				}
+				nPW++
+				host := fn
+				for host.Parent() != nil {
+					host = host.Parent()
+				}
+				// accepted: the object is being constructed here (fresh allocation), or the store is an option applied
+				// while the statement is built (a func(*PreparedStatement) closure)
+				okHost := false
+				if base, _ := pathOf(st.Addr); base != nil {
+					if a, isAlloc := base.(*ssa.Alloc); isAlloc && a.Heap {
+						okHost = true
+					}
+				}
+				if fa, isFA := st.Addr.(*ssa.FieldAddr); isFA {
+					if a, isAlloc := fa.X.(*ssa.Alloc); isAlloc {
+						_ = a
+						okHost = true
+					}
+				}
+				if fn.Signature.Params().Len() == 1 && fn.Signature.Results().Len() == 0 && fn.Parent() != nil {
+					if n := core.NamedOf(fn.Signature.Params().At(0).Type()); n != nil && n.Obj().Name() == "PreparedStatement" {
+						okHost = true
+					}
+				}
+				R.Check(okHost, "C20.R4", fkey(fn)+":writes-declared-parameters", c.at(st), "the declared parameter list of a statement is set only when the statement is built (WithParameters) or copied into the cache", "store inside "+fkey(host), "the parameter list of a statement is replaced in "+fname(fn)+": Describe no longer announces the length ParseParameters reported")
+			}
+		}
+	}
+	R.Floor("C20.R4", "stores to the declared parameter list", nPW, 2)
 	if wp := c.mustFunc("C20.R4", "wire", "WithParameters"); wp != nil {
 		ok := false
 		for _, a := range wp.AnonFuncs {
